@@ -1,5 +1,5 @@
 import ArcSwapModel.Inv.Own
-import ArcSwapModel.Inv.HoldH
+import ArcSwapModel.Inv.Probe
 import ArcSwapModel.Props.C03
 import ArcSwapModel.Tie.ListNewHelping
 import ArcSwapModel.Tie.ListNewFast
@@ -157,9 +157,35 @@ theorem C13_confirm_slot_names_nothing {st : State} (h : Reachable st) (hf : st.
   · obtain ⟨ld, h1, h2⟩ := OpSt.hholds_lp hh
     rw [hlp] at h1; cases h1; exact h2
 
+/-- … and since a slot holds `NONE` or a value, the slot is `NONE`: `confirm`'s
+    `debug_assert_eq!(prev, NONE)` holds -/
+theorem C13_confirm_slot_assert {st : State} (h : Reachable st) (hf : st.sh.fault = none) (t n g cand : Nat)
+    (hlp : (st.th t).op.lp? = some (.f4 g cand)) (hn : (st.th t).loc.node = some n) :
+    (st.sh.nodes n).hslot = .none := by
+  cases hv : (st.sh.nodes n).hslot with
+  | none => rfl
+  | ptr a => exact absurd hv (C13_confirm_slot_names_nothing h hf t n g cand hlp hn a)
+
+/-- `fast::get_debt`: "slot not NONE" never fires — a thread about to swap its debt into slot `i`
+    of its node (the slot its probe found empty) still finds it empty: nobody but the owner of a
+    node fills its slots.  Every reachable state, any nesting of the load (inside a writer's help,
+    a `compare_and_swap`, an `rcu`). -/
+theorem C13_get_debt_slot_assert {st : State} (h : Reachable st) (t p i n : Nat)
+    (hlp : (st.th t).op.lp? = some (.pswap p i)) (hn : (st.th t).loc.node = some n) :
+    (st.sh.nodes n).fast i = .none :=
+  ProbeInv.reachable h t p i n hlp hn
+
+/-- the step itself, for a plain `load`: no fault is raised by the swap -/
+theorem C13_get_debt_swap_no_fault {st : State} (h : Reachable st) (t c g p i : Nat) (b : Bool)
+    (hop : (st.th t).op = .load c g (.pswap p i)) (hf : st.sh.fault = none) :
+    (microStep st t b).1.sh.fault = none :=
+  pswap_no_fault h t c g p i b hop hf
+
 /-!
-Not proved yet: the assertion on the *fast* slot being `NONE` when claimed (`fast::get_debt`: needs
-"a slot found empty by its owner stays empty until the owner fills it") and `envelope holds NONE`.  No hang: reads are
+Not proved: `help`'s "Refusing to help myself" (after a nested wrap the helper's `self` is a node
+it no longer owns: needs the writer reservation on that node) and `envelope holds NONE` (stuck state
+of the model, needs the envelope invariant).
+No hang: reads are
 bounded (C08); writers: C09.  The harness runs every execution with debug assertions on and
 `catch_unwind` around each operation; the wrap is reached by presetting the counter (`wrap` family
 and the two D1 scenarios in the corpus).
